@@ -132,6 +132,10 @@ func c07Run(r *core.Run, c c07Case, forceLen, nRand int, seedIdx int) (*mon.Find
 // c07Snippets are Eval inputs aimed at constructs whose stack effect is easy
 // to get wrong.
 var c07Snippets = []string{
+	// spread calls in every position a call can take: statement, value, sole operand of return, with other operands, method, nested
+	`func f(xs ...int) int { t := 0; for _, x := range xs { t += x }; return t }; func g(xs ...int) int { return f(xs...) }; func h(a int, xs ...int) (int, int) { return f(xs...), a }; func k(xs ...int) (int, int) { return h(1, xs...) }; type T struct { X int }; func (t *T) M(xs ...int) int { return f(xs...) + t.X }; func (t *T) N(xs ...int) int { return t.M(xs...) }; t := &T{X: 1}; for i := 0; i < 3; i++ { s := []int{4, 5, i}; a := g(s...); b, c := k(s...); d := t.N(s...); g(s...); k(); _, _, _, _ = a, b, c, d; var none []int; e := g(none...); _ = e }`,
+	// a local assigned to itself plus and minus several constants, at every nesting a statement can have
+	`func st(n int) int { n = n + 1 + 1; if n > 2 { n = n - 2 + 1 }; for i := 0; i < 2; i++ { n = n + 1 + 2 + 3; switch { case n > 5: n = n - 1 - 1; default: n = n + 2 - 1 } }; return n }; x := st(1) + st(40); _ = x`,
 	`func c(a []int, b []int) int { return copy(a, b) }; func c2(a []int, b []int) (int, int) { n := copy(a, b); return copy(b, a), n }; s := []int{1, 2, 3, 4}; for i := 0; i < 3; i++ { n := c(s, s[1:]); p, q := c2(s[i:], s); _, _, _ = n, p, q; c(s, nil) }`,
 	`s := 0; for i := 0; i < 3; i++ { s += over1(i); over1(i); over0(i); a := over1(i)*2 + i; b, c := over2(a); _, _, _ = a, b, c; if over1(i) > 100 { break } }`,
 	`func w(n int) int { return over1(n) }; func w2(n int) (int, int) { return over2(n) }; for i := 0; i < 3; i++ { a := w(i); b, c := w2(i); w(a + b + c) }`,
